@@ -458,6 +458,10 @@ def load_database(dbpath, rootdir):
     for command in db:
         # Skip commands that invoke unsupported tools.
         if not command.is_supported():
+            log.warning(
+                "Ignoring unsupported compile command for file: "
+                + f"{command.filename}",
+            )
             continue
 
         # Files may be specified:
